@@ -1,17 +1,23 @@
 // C13 (d): by-name lookups reflect all loaded files, including files loaded after a lookup has already been answered.
 //
-// History:  [lookups]  load file A  [lookups]  load file B  lookups.
-// Which of the six by-name tables (type name / scoped name / true name, manifest name, element name / scoped name) have
-// been consulted - and therefore cached - at each of the two earlier points is SYMBOLIC (2 x 6 bits: every interleaving
-// of queries with the two load requests); the answers given at those points are checked too (they must reflect exactly
-// the files loaded so far).  What file B contributes is chosen per catalogue entry (KIND bit mask: 1 = a new type "U",
-// 2 = a manifest "n", 4 = an element "f"; B always re-declares A's type "T", like every real file re-declares int/void, and
-// its manifest/element are of that type).  Files are loaded the way InterrogateDatabase::read does it: a disjoint index
-// range per file, merged with the real merge_from.
+// History:  lookups - load file A - lookups - load file B - lookups.
+// All six by-name tables (type name / scoped name / true name, manifest name, element name / scoped name) are consulted -
+// and therefore cached - at every point; a cached answer is what can go stale, so this history dominates those that ask
+// less.  The answers at the earlier points are checked too (they must reflect exactly the files loaded so far).  What file B
+// contributes is chosen per catalogue entry (KIND bit mask: 1 = a new type "U", 2 = a manifest "n", 4 = an element "f"; B
+// always re-declares A's type "T", like every real file re-declares int/void, and its manifest/element are of that type).
+// Files are loaded the way InterrogateDatabase::read does it: a disjoint index range per file, merged with the real
+// merge_from.
 //
-// Oracle after the second load: each of the six lookups returns, for every name of A and of B, the index of the record
-// carrying that name, and 0 for a name no file has; the records of B are reachable by index and their type reference
-// points at the surviving "T".
+// The history and the names are CONCRETE (symbolic only: whether B's new type / element is global).  Attempts that did not
+// fit: a symbolic choice of the tables consulted at the earlier points (every cache root becomes "node or null", reads
+// through the null alternative yield unconstrained pointers and string lengths: out of 15 GB), a symbolic query name
+// (same effect inside find(): 13 GB), symbolic global / fully-defined flags of the shared type (the merged record's
+// name strings become "either copy": 15 GB; c13_merge_from decides those).
+//
+// Oracle: at every point each of the six lookups returns, for A's name, B's name and an unknown name, the index of the
+// record carrying that name in the files loaded so far, else 0; the records of B are reachable by index, their type
+// reference points at the surviving "T" and they appear in the enumerations.
 #include "verif.h"
 #include "interrogateDatabase.h"
 // lookup() calls its freshen_* argument through a pointer to member function.  Across translation units the Itanium
@@ -25,24 +31,11 @@
 #include <string>
 #include <vector>
 
-// Cut point: the by-name caches are std::map<std::string,int>; clear() frees the old nodes with the recursive
-// _Rb_tree::_M_erase.  Once a cache was filled under a symbolic condition its root is "node or null", and symbolic execution of
-// the real _M_erase then follows invalid-pointer reads down to the recursion bound (exponential, no verdict in 10 min).
-// It is replaced by "leak the nodes": clear() still resets the header with the real code; freeing has no observable effect.
-#ifndef VERIF_NATIVE
-typedef std::_Rb_tree<std::string, std::pair<const std::string, int>, std::_Select1st<std::pair<const std::string, int> >,
-                      std::less<std::string>, std::allocator<std::pair<const std::string, int> > > LookupTree;
-template<> void LookupTree::_M_erase(LookupTree::_Link_type) {}
-#endif
-
 #ifndef KIND
 #define KIND 7
 #endif
-#ifndef SYMASK
-#define SYMASK 1       // 1: which tables are consulted at the two earlier points is symbolic
-#endif
 #ifndef EARLY
-#define EARLY 1        // 1: also a symbolic round of lookups before the first file is loaded
+#define EARLY 1        // 1: also a round of lookups before the first file is loaded
 #endif
 
 static std::string *str(char a, char b = 0) {
@@ -76,10 +69,10 @@ static void put_manifest(InterrogateDatabase *db, int index, char c, int type) {
   m->_type = type;
   db->add_manifest(index, *m);
 }
-static void put_element(InterrogateDatabase *db, int index, char c, int type) {
+static void put_element(InterrogateDatabase *db, int index, char c, int type, int flags = 1 /* global */) {
   InterrogateElement *e = new InterrogateElement;
   set(e->_name, c); set(e->_scoped_name, 's', c);
-  e->_flags = 1;   // global
+  e->_flags = flags;
   e->_type = type;
   db->add_element(index, *e);
 }
@@ -87,56 +80,55 @@ static void put_element(InterrogateDatabase *db, int index, char c, int type) {
 enum { A_T = 1, A_M = 2, A_E = 3, B_T = 11, B_U = 12, B_N = 13, B_F = 14 };
 static const int FD = 0x2000, GL = 1;
 
-static InterrogateDatabase *file_a() {
+static InterrogateDatabase *file_a(int t_flags) {
   InterrogateDatabase *db = new_db();
-  put_type(db, A_T, 'T', FD | GL);
+  put_type(db, A_T, 'T', t_flags);
   put_manifest(db, A_M, 'm', A_T);
   put_element(db, A_E, 'e', A_T);
   return db;
 }
-static InterrogateDatabase *file_b() {
+static InterrogateDatabase *file_b(int t_flags, bool u_global, bool f_global) {
   InterrogateDatabase *db = new_db();
-  put_type(db, B_T, 'T', 0);                         // forward declaration of A's type
-  if (KIND & 1) put_type(db, B_U, 'U', FD | GL);
+  put_type(db, B_T, 'T', t_flags);                   // A's type again
+  if (KIND & 1) put_type(db, B_U, 'U', FD | (u_global ? GL : 0));
   if (KIND & 2) put_manifest(db, B_N, 'n', B_T);
-  if (KIND & 4) put_element(db, B_F, 'f', B_T);
+  if (KIND & 4) put_element(db, B_F, 'f', B_T, f_global ? 1 : 0);
   return db;
 }
 
-// One round of lookups; table k is consulted iff ask[k].  loaded = number of files loaded so far (0, 1, 2).
-// Own function per table so that the queries do not share loop counters.
-static void __attribute__((noinline)) ask_types(InterrogateDatabase *m, const bool *ask, int loaded) {
+// One round of lookups.  loaded = number of files loaded so far (0, 1, 2).
+static void __attribute__((noinline)) ask_types(InterrogateDatabase *m, int loaded) {
   int t = loaded >= 1 ? A_T : 0, u = (loaded >= 2 && (KIND & 1)) ? B_U : 0;
-  if (ask[0]) {
+  {
     ASSERT(m->lookup_type_by_name(*str('T')) == t, "C13 lookup_type_by_name reflects exactly the files loaded so far (type of the first file)");
     ASSERT(m->lookup_type_by_name(*str('U')) == u, "C13 lookup_type_by_name reflects exactly the files loaded so far (type of the second file)");
     ASSERT(m->lookup_type_by_name(*str('Z')) == 0, "C13 lookup_type_by_name: unknown name");
   }
-  if (ask[1]) {
+  {
     ASSERT(m->lookup_type_by_scoped_name(*str('s', 'T')) == t, "C13 lookup_type_by_scoped_name reflects exactly the files loaded so far (type of the first file)");
     ASSERT(m->lookup_type_by_scoped_name(*str('s', 'U')) == u, "C13 lookup_type_by_scoped_name reflects exactly the files loaded so far (type of the second file)");
     ASSERT(m->lookup_type_by_scoped_name(*str('T')) == 0, "C13 lookup_type_by_scoped_name: unknown name");
   }
-  if (ask[2]) {
+  {
     ASSERT(m->lookup_type_by_true_name(*str('t', 'T')) == t, "C13 lookup_type_by_true_name reflects exactly the files loaded so far (type of the first file)");
     ASSERT(m->lookup_type_by_true_name(*str('t', 'U')) == u, "C13 lookup_type_by_true_name reflects exactly the files loaded so far (type of the second file)");
     ASSERT(m->lookup_type_by_true_name(*str('T')) == 0, "C13 lookup_type_by_true_name: unknown name");
   }
 }
-static void __attribute__((noinline)) ask_others(InterrogateDatabase *m, const bool *ask, int loaded) {
+static void __attribute__((noinline)) ask_others(InterrogateDatabase *m, int loaded) {
   int am = loaded >= 1 ? A_M : 0, ae = loaded >= 1 ? A_E : 0;
   int bn = (loaded >= 2 && (KIND & 2)) ? B_N : 0, bf = (loaded >= 2 && (KIND & 4)) ? B_F : 0;
-  if (ask[3]) {
+  {
     ASSERT(m->lookup_manifest_by_name(*str('m')) == am, "C13 lookup_manifest_by_name reflects exactly the files loaded so far (manifest of the first file)");
     ASSERT(m->lookup_manifest_by_name(*str('n')) == bn, "C13 lookup_manifest_by_name reflects exactly the files loaded so far (manifest of the second file)");
     ASSERT(m->lookup_manifest_by_name(*str('Z')) == 0, "C13 lookup_manifest_by_name: unknown name");
   }
-  if (ask[4]) {
+  {
     ASSERT(m->lookup_element_by_name(*str('e')) == ae, "C13 lookup_element_by_name reflects exactly the files loaded so far (element of the first file)");
     ASSERT(m->lookup_element_by_name(*str('f')) == bf, "C13 lookup_element_by_name reflects exactly the files loaded so far (element of the second file)");
     ASSERT(m->lookup_element_by_name(*str('Z')) == 0, "C13 lookup_element_by_name: unknown name");
   }
-  if (ask[5]) {
+  {
     ASSERT(m->lookup_element_by_scoped_name(*str('s', 'e')) == ae, "C13 lookup_element_by_scoped_name reflects exactly the files loaded so far (element of the first file)");
     ASSERT(m->lookup_element_by_scoped_name(*str('s', 'f')) == bf, "C13 lookup_element_by_scoped_name reflects exactly the files loaded so far (element of the second file)");
     ASSERT(m->lookup_element_by_scoped_name(*str('e')) == 0, "C13 lookup_element_by_scoped_name: unknown name");
@@ -145,53 +137,32 @@ static void __attribute__((noinline)) ask_others(InterrogateDatabase *m, const b
 
 extern "C" void harness_c13_lookups() {
   __ll2c_global_ctors();
-  InterrogateDatabase *a = file_a();
-  InterrogateDatabase *b = file_b();
+  // the shared type: defined and global in A, forward declared in B
+  int ta = GL | FD, tb = 0;
+  InterrogateDatabase *a = file_a(ta);
+  bool u_global = (KIND & 1) ? nondet_bool() : false, f_global = (KIND & 4) ? nondet_bool() : false;
+  InterrogateDatabase *b = file_b(tb, u_global, f_global);
   InterrogateDatabase *m = new_db();
-  bool ask0[6], ask1[6], all[6];
-  for (int k = 0; k < 6; k++) {
-    ask0[k] = ask1[k] = all[k] = true;
-#if SYMASK
-    if (EARLY) ask0[k] = nondet_bool();
-    ask1[k] = nondet_bool();
-#endif
-  }
-
 #if EARLY
-  ask_types(m, ask0, 0); ask_others(m, ask0, 0);
+  ask_types(m, 0); ask_others(m, 0);
 #endif
   m->merge_from(*a);
-  ask_types(m, ask1, 1); ask_others(m, ask1, 1);
+  ask_types(m, 1); ask_others(m, 1);
   m->merge_from(*b);
-  ask_types(m, all, 2); ask_others(m, all, 2);
+  ask_types(m, 2); ask_others(m, 2);
 
   // the late file's records themselves, and their references into the type both files share
   ASSERT((int)m->_type_map.size() == ((KIND & 1) ? 2 : 1), "C13 merge_from: the re-declared type is identified with the loaded one");
+  ASSERT(m->get_type(A_T).is_global() == (((ta | tb) & GL) != 0) && m->get_type(A_T).is_fully_defined() == (((ta | tb) & FD) != 0),
+         "C13 merge_from: the shared type is global / fully defined iff either file says so");
+  ASSERT(m->get_num_global_types() == (((ta | tb) & GL) ? 1 : 0) + (u_global ? 1 : 0), "C13 merge_from: get_num_global_types counts the global types once each");
   if (KIND & 2) ASSERT(m->get_manifest(B_N)._type == A_T && m->get_num_global_manifests() == 2 && m->get_global_manifest(1) == B_N,
                        "C13 merge_from: the late file's manifest is enumerated and refers to the surviving type");
-  if (KIND & 4) ASSERT(m->get_element(B_F)._type == A_T && m->get_num_global_elements() == 2 && m->get_global_element(1) == B_F,
-                       "C13 merge_from: the late file's element is enumerated and refers to the surviving type");
-  WITNESS();
-}
-
-extern "C" void harness_c13_dbg() {
-  __ll2c_global_ctors();
-  InterrogateDatabase *db = new_db();
-#if DBG == 1
-  put_manifest(db, 2, 'm', 1);
-#elif DBG == 2
-  put_element(db, 2, 'm', 1);
-#elif DBG == 3
-  put_type(db, 2, 'm', 1);
-#elif DBG == 4
-  db->merge_from(*file_a());
-#elif DBG == 5
-  ASSERT(db->lookup_manifest_by_name(*str('m')) == 0, "C13 x");
-  db->merge_from(*file_a());
-#elif DBG == 6
-  db->merge_from(*file_a());
-  ASSERT(db->lookup_manifest_by_name(*str('m')) == A_M, "C13 x");
-  ASSERT(db->lookup_manifest_by_name(*str('n')) == 0, "C13 x");
-#endif
+  if (KIND & 4) ASSERT(m->get_element(B_F)._type == A_T && m->get_num_global_elements() == (f_global ? 2 : 1) &&
+                       (!f_global || m->get_global_element(1) == B_F),
+                       "C13 merge_from: the late file's element refers to the surviving type and is enumerated iff global");
+  if (KIND & 1) ASSERT(m->get_num_all_types() == 2 && m->get_all_type(1) == B_U &&
+                       (!u_global || m->get_global_type(m->get_num_global_types() - 1) == B_U),
+                       "C13 merge_from: the late file's new type is enumerated, among the global types iff global");
   WITNESS();
 }
